@@ -452,15 +452,17 @@ static void gen_termbase(char *o, size_t osz) {
 /* the queue-file system calls of qmail-send in the base run (fault sweep): every call that names, or works on a descriptor
  * of, a file below info/ local/ remote/ bounce/ todo/ */
 static int sweep_calls[8192], sweep_ncalls, sweep_all, sweep_total, sweep_last_active; static unsigned char sweep_active[MAXSEL];
+static int sweep_calls1[64], sweep_ncalls1;      /* the unlink calls of qmail-clean (process 1) in the base run */
 static int qfile(const char *path) { return !strncmp(path, "info/", 5) || !strncmp(path, "local/", 6) || !strncmp(path, "remote/", 7) || !strncmp(path, "bounce/", 7) || !strncmp(path, "todo/", 5); }
 static void collect_calls(void) {
   char *s = (char *)sim_trace.p; size_t n = sim_trace.n, i = 0; int isq[SIM_MAXFD]; memset(isq, 0, sizeof isq);
-  sweep_ncalls = 0; sweep_total = P[0].ncalls; sweep_last_active = last_active; memcpy(sweep_active, active_sel, sizeof sweep_active);
+  sweep_ncalls = 0; sweep_ncalls1 = 0; sweep_total = P[0].ncalls; sweep_last_active = last_active; memcpy(sweep_active, active_sel, sizeof sweep_active);
   while (i < n) {
     size_t j = i; while (j < n && s[j] != '\n') j++;
     char line[400]; size_t l = j - i < sizeof line - 1 ? j - i : sizeof line - 1; memcpy(line, s + i, l); line[l] = 0; i = j + 1;
     int k, fd; char op[40], arg[200];
     if (sscanf(line, "P0 close %d", &fd) == 1) { if (fd >= 0 && fd < SIM_MAXFD) isq[fd] = 0; continue; }
+    if (sscanf(line, "P1 #%d unlink %199s", &k, arg) == 2) { if (strncmp(arg, "pid/", 4) && sweep_ncalls1 < 64) sweep_calls1[sweep_ncalls1++] = k; continue; }
     if (sscanf(line, "P0 #%d %39s %199s", &k, op, arg) != 3) continue;
     int hit = 0;
     if (qfile(arg)) { hit = 1; char *ar = strstr(line, "-> "); if (!strncmp(op, "open", 4) && ar) { fd = atoi(ar + 3); if (fd >= 0 && fd < SIM_MAXFD) isq[fd] = 1; } }
@@ -480,6 +482,13 @@ static void sweep_fault(char *base, int cap, int all) {
   static const int errs[] = { EIO, EIO, EIO, ENOMEM, -1, ENOSPC };
   for (int i = off; i < nc; i += step) {
     snprintf(line, sizeof line, "%s fault=0:%d:%d", base, calls[i], errs[h_below(6)]);
+    run_line(line);
+  }
+  /* ... and one run per unlink of qmail-clean (intd/ todo/ mess/) with that call failing: qmail-clean answers '!' (at most 12, no random draw) */
+  int nc1 = sweep_ncalls1; static int calls1[64]; memcpy(calls1, sweep_calls1, sizeof(int) * nc1);
+  int step1 = nc1 > 12 ? (nc1 + 11) / 12 : 1;
+  for (int i = 0; i < nc1; i += step1) {
+    snprintf(line, sizeof line, "%s fault=1:%d:%d", base, calls1[i], EIO);
     run_line(line);
   }
 }
